@@ -4,7 +4,7 @@ import copy
 import random
 
 from . import core
-from .textval import to_py, s2py, py2s, lines2py, py2lines, rand_value, rand_text
+from .textval import to_py, s2py, py2s, lines2py, py2lines, rand_value, rand_text, header_of
 
 
 def _mods():
@@ -116,10 +116,10 @@ def replay_history(case, mods):
             elif kind == 'iadd':
                 obj += to_py(op['c'], text_gen)
             elif kind == 'add':
-                before = (copy.deepcopy(obj.lines), copy.deepcopy(obj._header))
+                before = (copy.deepcopy(obj.lines), header_of(obj))
                 new = obj + to_py(op['c'], text_gen)
-                if (obj.lines, obj._header) != before:
-                    return [('+ must not change its left operand', before, (obj.lines, obj._header))]
+                if (obj.lines, header_of(obj)) != before:
+                    return [('+ must not change its left operand', before, (obj.lines, header_of(obj)))]
                 obj = new
             elif kind == 'trim':
                 obj.trim(end_only=op['endOnly'])
@@ -139,8 +139,8 @@ def replay_history(case, mods):
         bad = []
         if py2lines(obj.lines) != case['lines']:
             bad.append(('lines', case['lines'], py2lines(obj.lines)))
-        if py2lines(obj._header) != case['hdr']:
-            bad.append(('header', case['hdr'], py2lines(obj._header)))
+        if not case['comment'] and py2lines(header_of(obj)) != case['hdr']:
+            bad.append(('header', case['hdr'], py2lines(header_of(obj))))
         exp_str = case['render'] if case['comment'] else case['str']
         if py2s(str(obj)) != exp_str:
             bad.append(('str', exp_str, py2s(str(obj))))
@@ -170,7 +170,7 @@ def replay_indent_case(case, mods):
         ret = blk.indent(make_indentizer(text_gen, cfg))
         if ret is not blk:
             return 'indent must return self'
-        hdr = blk._header
+        hdr = header_of(blk)
         if hdr != ['H e a d'] or (blk.lines and not str(blk).startswith('H e a d\n')):
             return f'header changed: {hdr!r}'
         if case['twice']:
@@ -197,7 +197,7 @@ def record_text_trace(rng, tid, mods, flavour):
     events = []
 
     def obs_block(obj):
-        return {'hdr': py2lines(obj._header), 'lines': py2lines(obj.lines), 'str': py2s(str(obj))}
+        return {'hdr': py2lines(header_of(obj)) if type(obj).__name__ != 'Comment' else [], 'lines': py2lines(obj.lines), 'str': py2s(str(obj))}
 
     def opt(res):
         return {'some': False, 'ls': []} if res is None else {'some': True, 'ls': py2lines(res.lines)}
